@@ -149,6 +149,8 @@ type Solver struct {
 	nfile   int
 	mu      sync.Mutex
 	tier    string
+	replayDir string
+	replayMu  sync.Mutex
 }
 
 func newSolver(scratch string, timeout time.Duration, par int, tier string) *Solver {
@@ -324,6 +326,9 @@ type OblResult struct {
 	VCBytes   int      `json:"vc_bytes"`
 	FailPath  int      `json:"fail_path,omitempty"`
 	Canary    bool     `json:"canary,omitempty"`
+	Replay    string   `json:"replay_test,omitempty"`
+	ReplayErr string   `json:"replay_note,omitempty"`
+	failOb    *Obligation
 	WeakModel bool     `json:"candidate_model_from_instantiation,omitempty"`
 }
 
@@ -401,6 +406,7 @@ func (sv *Solver) decide(fr *FuncResult) []*OblResult {
 							r.Model = trimModel(res.Model)
 							r.WeakModel = res.Weak
 							r.FailPath = o.PathID
+							r.failOb = o
 							if o.Pos != "" {
 								r.Pos = o.Pos
 							}
@@ -426,6 +432,9 @@ func (sv *Solver) decide(fr *FuncResult) []*OblResult {
 					r.Status = "vacuous"
 				}
 				return
+			}
+			if anySat && sv.replayDir != "" && r.failOb != nil && !r.Canary {
+				r.Replay, r.ReplayErr = sv.buildReplay(fr, ax, r.failOb, sv.replayDir)
 			}
 			switch {
 			case anySat:
